@@ -46,8 +46,9 @@ RECIPES = {
     'accumulator_dist_invoke': dict(name='invoke', cls='accumulator', cls_targs=['double', '1'], self='accumulator_dist', opts=_ACC_OPTS),
     'accumulator_dist_result': dict(name='result', cls='accumulator', cls_targs=['double', '1'], self='accumulator_dist'),
     'accumulator_dist_ctor1': dict(name='accumulator', cls='accumulator', cls_targs=['double', '1'], self='accumulator_dist', ctor=True),
-    'accumulator_dist_add_to_1d_distribution': dict(name='add_to_1d_distribution', cls='accumulator', self='accumulator_dist'),
-    'accumulator_dist_add_to_2d_distribution': dict(name='add_to_2d_distribution', cls='accumulator', self='accumulator_dist'),
+    # unsigned wrap allowed: the per-bin call counters are incremented without a bound (defined arithmetic); indices stay guarded by the at() obligations
+    'accumulator_dist_add_to_1d_distribution': dict(name='add_to_1d_distribution', cls='accumulator', self='accumulator_dist', allow_unsigned_wrap=True),
+    'accumulator_dist_add_to_2d_distribution': dict(name='add_to_2d_distribution', cls='accumulator', self='accumulator_dist', allow_unsigned_wrap=True),
     'projector_ctor2': dict(name='projector', cls='projector', self='projector', ctor=True, sel='accumulator'),
     'projector_add3': dict(name='add', cls='projector', self='projector', sel='(std::size_t, double, double)'),
     'projector_add4': dict(name='add', cls='projector', self='projector', sel='(std::size_t, double, double, double)'),
@@ -122,6 +123,15 @@ RECIPES.update({
     'mc_result_finite_calls': dict(name='finite_calls', cls='mc_result', self='mc_result'),
 })
 
+RECIPES.update({
+    'distribution_parameters_x_min': dict(name='x_min', cls='distribution_parameters', self='distribution_parameters'),
+    'distribution_parameters_y_min': dict(name='y_min', cls='distribution_parameters', self='distribution_parameters'),
+    'distribution_parameters_bin_size_x': dict(name='bin_size_x', cls='distribution_parameters', self='distribution_parameters'),
+    'distribution_parameters_bin_size_y': dict(name='bin_size_y', cls='distribution_parameters', self='distribution_parameters'),
+    'distribution_parameters_bins_x': dict(name='bins_x', cls='distribution_parameters', self='distribution_parameters'),
+    'distribution_parameters_bins_y': dict(name='bins_y', cls='distribution_parameters', self='distribution_parameters'),
+})
+
 # ---- fragments: single expressions inside the MPI drivers -----------------------------------
 _SUBP = [('size_t', 'calls'), ('int', 'rank'), ('int', 'world')]
 _DISP = [('size_t', 'calls'), ('int', 'rank'), ('int', 'world'), ('size_t', 'usage')]
@@ -136,7 +146,7 @@ FRAGMENTS['callback_decision'] = dict(unit='chkpt', fn='operator()', cls='callba
                                       params=[('T', 'val_all'), ('T', 'err_all'), ('T', 'target_rel_err_')], ret='_Bool')
 
 # ---- B1 jobs ------------------------------------------------------------------------------------
-_GHOSTS = ('size_t vp_invocations, vp_weight_calls, vp_acc_calls; T vp_last_f, vp_last_w, vp_last_acc; '
+_GHOSTS = ('size_t vp_invocations, vp_weight_calls, vp_acc_calls; T vp_last_f, vp_last_w, vp_last_acc; const T *vp_acc_p1, *vp_acc_p2, *vp_acc_p3; '
            'T vp_w_s0, vp_w_s1, vp_w_s2; size_t vp_w_nz, vp_w_fc; size_t vp_draws; T vp_last_u; size_t vp_g_nz, vp_g_fc, vp_g_exp; T vp_g_weight, vp_g_slot, vp_last_ret; size_t vp_g_nnz;')
 _ST_RES = [dict(cls='mc_point'), dict(cls='distribution_parameters', vec=True), dict(cls='mc_result', vec=True), dict(cls='distribution_result', vec=True),
            dict(cls='plain_result'), dict(cls='accumulator', cls_targs=['double', '0'], cname='accumulator_nodist'),
@@ -161,6 +171,7 @@ _ST_VCHK = [dict(cls='distribution_parameters', vec=True), dict(cls='mc_result',
 _ST_MCHK = [dict(cls='distribution_parameters', vec=True), dict(cls='mc_result', vec=True), dict(cls='distribution_result', vec=True), dict(cls='plain_result', vec=True),
             dict(unit='drivers', cls='multi_channel_result', vec=True),
             dict(unit='chkpt', cls='chkpt', cls_targs=['hep::multi_channel_result<double>'], cname='chkpt_multi_channel_result'), dict(unit='chkpt', cls='multi_channel_chkpt', cls_targs=['double'])]
+_DGHOSTS = 'size_t vp_acc_calls; T vp_last_acc; const T *vp_acc_p1, *vp_acc_p2, *vp_acc_p3; _Bool vp_g_hit; size_t vp_g_bin;'
 _T_USER = 'user integrand and virtual point.weight() are contract stubs returning any value of T (NaN, +-inf, +-0 included)'
 
 JOBS = [
@@ -269,6 +280,10 @@ JOBS = [
          entry='h_weighted_with_variance_call', enforce='weighted_with_variance_call', af=['weighted_with_variance_call', 'mc_result_value', 'mc_result_variance', 'create_result'],
          structs=[dict(cls='mc_result', vec=True), dict(cname='weighted_with_variance', opaque=True)], globals='size_t vp_g_calls, vp_g_nz, vp_g_fc;',
          defines=['VP_NMAX=1048576', 'VP_CALLSMAX=1099511627776'], props=['C13', 'C12'], thorough_reals=['float']),
+    dict(name='dist1d', functions=['accumulator_dist_add_to_1d_distribution', 'accumulate', 'distribution_parameters_x_min', 'distribution_parameters_bin_size_x', 'distribution_parameters_bins_x'],
+         specs=['accumulator_dist_add_to_1d_distribution', 'accumulate'], entry='h_accumulator_dist_add_to_1d_distribution', enforce='accumulator_dist_add_to_1d_distribution',
+         replace=['accumulate'], structs=[dict(cls='distribution_parameters', vec=True), dict(cls='accumulator', cls_targs=['double', '1'], cname='accumulator_dist')],
+         preludes=['opaque.h'], globals=_DGHOSTS, defines=['VP_NMAX=1048576', 'VP_BINSMAX=1048576'], props=['C11', 'C06', 'C14'], thorough_reals=['float']),
     dict(name='refine_weights', functions=['multi_channel_refine_weights'], entry='h_multi_channel_refine_weights',
          enforce='multi_channel_refine_weights', replace=['vp_pow'], af=['multi_channel_refine_weights'], globals='T vp_g_s1, vp_g_s2; _Bool vp_g_nodata;',
          defines=['VP_NMAX=1048576'], props=['C08'], thorough_reals=['float'],
